@@ -18,9 +18,9 @@ What is proved here, for ALL inputs of the stated class (no bound on values, wid
 * `vsprintf_s_C11_fits` (full): `vsprintf_s` never reports success with `ret >= dmax`; `vsnprintf_s_exact_fit_witness`:
   `sprintf_s` / `snprintf_s` / `vsnprintf_s` do (text of exactly `dmax` characters).
 
-NOT proved (correspondence + oracle only, see NOTES_C11.md): that the directive parser of `safec_vsnprintf_s` and
-`Spec.parseDir` read every format alike and the composition over several directives (`engine = Spec.printf` end to end);
-`%c` `%s` `%lc` `%ls`; every floating conversion (no model).
+END TO END: `SafeC/Props/C11Refine.lean` (layout = `Spec.renderInt` incl. the `#` class, `%c` `%s` `%%`, parser equivalence,
+composition over the format, the wrappers, statelessness) — for the repaired code and specifications within the 32-byte
+digit buffer.  NOT proved (correspondence + oracle only, see NOTES_C11.md): `%lc` `%ls` `%p`; every floating conversion (no model).
 
 The FULL statement — for every format of the class and matching arguments the engine's text is `Spec.printf`'s or the
 call fails — is false of the code: see the `_witness` theorems.
